@@ -143,6 +143,20 @@ fn verif_witness_search() {
   exprs.push("{ if a { let _ = b; } else { let _ = c; }; }".to_string());
   exprs.push("if a { b } else if c { d } else { e }".to_string());
   exprs.push("if a { b } else { let _ = c; if d { e } else { f } }".to_string());
+  // inputs whose grouping the formatter changes by design (the recorded finding `a op (b op c)`): the tree is not compared, but the
+  // formatted text must still parse — the left operand of `<` that now ends with a member name needs its parentheses
+  for e in ["a + (b + c.d) < e", "a * (b * c.d) < e", "(a + (b + c.d)) < e", "a + (b + c.d<T>) < e", "a && (b && c.d < e)"] {
+    let one = format!("class Main {{ function f(): int = {e} }}");
+    let (e1, _, printed) = bodies(heap, &one);
+    if e1 != 0 {
+      continue;
+    }
+    let (e2, _, _) = bodies(heap, &printed);
+    if e2 != 0 {
+      println!("WITNESS: `{e}` is formatted as: {} -- which re-parses with {e2} error(s)", printed.replace('\n', " "));
+      return;
+    }
+  }
   let mut checked = 0usize;
   for chunk in exprs.chunks(20) {
     let src = format!(
